@@ -194,6 +194,9 @@ def ugrid(c, *, edges='none', transposed=False, start_index=0, fill='none', coor
             if start_index is not None:
                 tattrs['start_index'] = start_index
             add_var(ds, t, dims_, sym_array(c, t, shape_, 'int', INT32), tattrs)
+    if edge_coords and nedge is None and edge_coords == 'without-edge-dimension':
+        # a mesh that names edge coordinate variables although it defines no edge dimension and no edge table
+        nedge = sym_size(c, 'nedge', 0)
     if edge_coords and nedge is not None:
         mesh_attrs['edge_coordinates'] = 'edge_x edge_y'
         add_var(ds, 'edge_x', ('nedge',), sym_array(c, 'edge_x', (nedge,), 'floatnan'), coord=is_coord)
